@@ -288,6 +288,45 @@ func runC01(p *core.Program, r *core.Report) {
 			r.OK("TILE", construct, p.Pos(fn.Pos()), "every exit has no unclaimed rune after the last child (or the node is a leaf)")
 		}
 	}
+	// helpers (functions that take the parser but are not node parse methods
+	// and were reached from one): entered with nothing unclaimed, a helper
+	// that can return with MORE THAN ONE consumed rune unclaimed is where a
+	// gap starts - reporting it here names the culprit instead of its callers
+	var helpers []*ssa.Function
+	for f := range e.analysed {
+		isRoot := false
+		for _, rt := range roots {
+			if rt == f {
+				isRoot = true
+			}
+		}
+		if isRoot || !inParsePkg(f) || f.Blocks == nil {
+			continue
+		}
+		// only plain functions: methods of node types consume the runes that
+		// are the node's own text (a leaf), methods of parser are the
+		// rune-level primitives themselves
+		if f.Signature.Recv() != nil || f.Parent() != nil {
+			continue
+		}
+		helpers = append(helpers, f)
+	}
+	sort.Slice(helpers, func(i, j int) bool { return helpers[i].String() < helpers[j].String() })
+	for _, f := range helpers {
+		out := e.summary(f, tileSt{0, false})
+		worst := 0
+		for s := range out {
+			if s.pend > worst {
+				worst = s.pend
+			}
+		}
+		construct := core.FnKey(f) + " helper leaves at most one rune for its caller to claim"
+		if worst >= 2 {
+			r.Bad("TILE", construct, p.Pos(f.Pos()), fmt.Sprintf("entered with every consumed rune claimed, this helper can return with %s consumed runes that it attached to no node (a run of whitespace or a separator that is consumed but never turned into a Sep): every caller then parses its next child over a gap", pendStr(worst)))
+		} else {
+			r.OK("TILE", construct, p.Pos(f.Pos()), fmt.Sprintf("returns with at most %d unclaimed rune(s)", worst))
+		}
+	}
 	for k, v := range e.events {
 		r.Count("TILE event sites visited (path-multiplied) "+k, v)
 	}
